@@ -21,8 +21,8 @@
 (* step TALVM takes, and TALVM's output is the document.                                      *)
 EXTENDS TALVM, TraceBase
 
-VARIABLES tid, l, verdict, drifted
-tvars == <<st, prog, sym, macros, tid, l, verdict, drifted>>
+VARIABLES tid, l, verdict, drifted, loaded
+tvars == <<st, prog, sym, macros, tid, l, verdict, drifted, loaded>>
 
 Sem == INSTANCE TALSem
 CtxTable == JsonDeserialize("c17_ctx.json")        \* named contexts (extra file written by the harness)
@@ -39,10 +39,15 @@ RefDoc == Sem!Doc(Ref.t)
 
 RealSym == [x \in {TI.symt[i].s : i \in DOMAIN TI.symt} |-> TI.symt[CHOOSE i \in DOMAIN TI.symt : TI.symt[i].s = x].at]
 
-TInit == /\ tid \in 1..NTraces /\ l = 1 /\ verdict = "ok" /\ drifted = FALSE
-         /\ LET c == Compile(Traces[tid].init.tree) IN
-            /\ prog = c.cmds /\ sym = c.sym /\ macros = c.macros
-            /\ st = VMInit(Sem!GlobalsOf(CtxEnts(Traces[tid].init), Traces[tid].init.tree), Traces[tid].init.py, Len(c.cmds))
+\* (the program is compiled in an action, not in the initial predicate: TLC computes initial states
+\* on its main thread, whose stack is too small for the nested compile states of larger templates)
+TInit == /\ tid \in 1..NTraces /\ l = 1 /\ verdict = "ok" /\ drifted = FALSE /\ loaded = FALSE
+         /\ prog = <<>> /\ sym = [x \in {} |-> 0] /\ macros = <<>> /\ st = VMInit(EmptyF, FALSE, 0)
+Load == /\ ~loaded /\ loaded' = TRUE
+        /\ LET c == Compile(TI.tree) IN
+           /\ prog' = c.cmds /\ sym' = c.sym /\ macros' = c.macros
+           /\ st' = VMInit(G0, TI.py, Len(c.cmds))
+        /\ UNCHANGED <<tid, l, verdict, drifted>>
 
 \* ---- design level: one opcode event = one step of TALVM ----------------------------------------------------
 AtSubEnd(s) == s.err = "" /\ ~s.ret /\ s.pc >= s.plen /\ s.ps # <<>>
@@ -81,11 +86,11 @@ Judge17(f) ==
     ELSE "ok"
 
 FinalDrift(f) ==
-    /\ (IF TI.compiled /\ (TI.prog # prog \/ RealSym # sym \/ TI.macros # macros)
+    /\ (IF TI.kind = "direct" /\ TI.compiled /\ (TI.prog # prog \/ RealSym # sym \/ TI.macros # macros)
         THEN RecordDrift(tid, l, "compiled program differs from TALCompile") ELSE TRUE)
-    /\ (IF ~drifted /\ f.raised # "" /\ (Halted(st) \/ ModelStep(st).err = "")
+    /\ (IF TI.kind = "direct" /\ ~drifted /\ f.raised # "" /\ (Halted(st) \/ ModelStep(st).err = "")
         THEN RecordDrift(tid, l, "TALVM does not predict the exception") ELSE TRUE)
-    /\ (IF ~drifted /\ f.raised = "" /\ ~(Halted(st) /\ st.err = "" /\ st.out = f.doc)
+    /\ (IF TI.kind = "direct" /\ ~drifted /\ f.raised = "" /\ ~(Halted(st) /\ st.err = "" /\ st.out = f.doc)
         THEN RecordDrift(tid, l, "TALVM does not halt with the document") ELSE TRUE)
 
 FinalEvent(Judge(_)) ==
@@ -95,11 +100,11 @@ FinalEvent(Judge(_)) ==
     /\ UNCHANGED <<st, drifted>>
 
 Consume(Judge(_)) ==
-    /\ l <= NEv /\ verdict = "ok"
-    /\ l' = l + 1 /\ UNCHANGED <<tid, prog, sym, macros>>
+    /\ loaded /\ l <= NEv /\ verdict = "ok"
+    /\ l' = l + 1 /\ UNCHANGED <<tid, prog, sym, macros, loaded>>
     /\ (OpEvent \/ FinalEvent(Judge))
 
-TNext == Consume(Judge17)
+TNext == Load \/ Consume(Judge17)
 TSpec == TInit /\ [][TNext]_tvars
 Record == RecordVerdict(tid, l, verdict, NEv)
 Post == WriteVerdicts
